@@ -400,6 +400,15 @@ def gen_ctr(seed, tier, cap_for, c06=False):
             for c, ln in ctrs:
                 sc.ctr_set_counter(kind, 0, c, ln)
                 stream(sc, kind, 0, (9 * bs + 1) if not thorough else (17 * bs + 5))
+            if not thorough:
+                # every other counter LENGTH and every other carry-chain length, on a short stream
+                for ln in range(3, bs - 1):
+                    sc.ctr_set_counter(kind, 0, (b"\xff" * ln) if ln % 2 else sc.rb_nz(ln - 1) + b"\xfe", ln)
+                    sc.ctr_encrypt(kind, 0, sc.rb(2 * bs + 3))
+                for nff in range(4, bs - 1):
+                    if nff != bs // 2:
+                        sc.ctr_set_counter(kind, 0, sc.rb(bs - nff) + b"\xff" * (nff - 1) + b"\xfe")
+                        sc.ctr_encrypt(kind, 0, sc.rb(3 * bs + 1))
             sc.ctr_cleanup(kind, 0)
         # 3. random mixed streams
         for i in range(14 if thorough else 2):
